@@ -30,7 +30,66 @@ type gwRoot struct {
 // gwRecursiveBelowStruct: a struct-mapped object with an unset, non-pointer property that refers
 // to a map-backed object which refers to itself directly (variant 0), through another object
 // (variant 1) or through an inline object (variant 2); with and without declared defaults.
+type gwNode struct {
+	Next  *gwNode `json:"next"`
+	Other any     `json:"other"`
+	V     int64   `json:"v"`
+}
+
+// gwRecursiveStruct: a struct type that contains itself through a pointer (variant 3) or an interface
+// field (variant 4), mapped by NewStructMappedObjectSchema[gwNode] (non-pointer T), with or without a
+// default on v: an input that leaves the recursive field unset must come back with that field nil.
+func gwRecursiveStruct(variant int, withDefaults bool) (string, error) {
+	p := func(t schema.Type, def *string) *schema.PropertySchema {
+		return schema.NewPropertySchema(t, nil, false, nil, nil, nil, def, nil)
+	}
+	var d *string
+	if withDefaults {
+		five := "5"
+		d = &five
+	}
+	props := map[string]*schema.PropertySchema{"v": p(schema.NewIntSchema(nil, nil, nil), d)}
+	if variant == 3 {
+		props["next"] = p(schema.NewRefSchema("Node", nil), nil)
+	} else {
+		props["other"] = p(schema.NewRefSchema("Node", nil), nil)
+	}
+	sc := schema.NewScopeSchema(schema.NewStructMappedObjectSchema[gwNode]("Node", props))
+	var out []string
+	for _, in := range []any{map[string]any{}, map[string]any{"v": 1}} {
+		v, err := sc.Unserialize(in)
+		if err != nil {
+			return "", fmt.Errorf("a valid input %v is rejected: %w", in, err)
+		}
+		n, ok := v.(gwNode)
+		if !ok || n.Next != nil || n.Other != nil {
+			return "", fmt.Errorf("input %v: the recursive field that was not given is not nil: %#v", in, v)
+		}
+		if err := sc.Validate(v); err != nil {
+			return "", fmt.Errorf("Validate rejects what Unserialize returned for %v: %w", in, err)
+		}
+		if _, err := sc.Serialize(v); err != nil {
+			return "", fmt.Errorf("Serialize rejects what Unserialize returned for %v: %w", in, err)
+		}
+		out = append(out, fmt.Sprint(v))
+	}
+	if variant == 3 {
+		v, err := sc.Unserialize(map[string]any{"v": 1, "next": map[string]any{"v": 2, "next": map[string]any{}}})
+		if err != nil {
+			return "", fmt.Errorf("a nested valid input is rejected: %w", err)
+		}
+		n := v.(gwNode)
+		if n.Next == nil || n.Next.V != 2 || n.Next.Next == nil || n.Next.Next.Next != nil {
+			return "", fmt.Errorf("nested input: wrong value %#v", v)
+		}
+	}
+	return strings.Join(out, " | "), nil
+}
+
 func gwRecursiveBelowStruct(variant int, withDefaults bool) (string, error) {
+	if variant >= 3 {
+		return gwRecursiveStruct(variant, withDefaults)
+	}
 	p := func(t schema.Type, def *string) *schema.PropertySchema {
 		return schema.NewPropertySchema(t, nil, false, nil, nil, nil, def, nil)
 	}
@@ -236,7 +295,7 @@ func groupGoWitnesses(s *sink) {
 	s.stats["gowitness:done"]++
 	groupStructZeroWitness(s)
 	groupStructRepairWitnesses(s)
-	for variant := 0; variant < 3; variant++ {
+	for variant := 0; variant < 5; variant++ {
 		for _, defaults := range []string{"plain", "defaults"} {
 			cmd := exec.Command(os.Args[0], "go-witness", fmt.Sprint(variant), defaults)
 			var out bytes.Buffer
@@ -263,7 +322,7 @@ func groupGoWitnesses(s *sink) {
 				what = line
 			}
 			if what != "" {
-				detail := []string{fmt.Sprintf("variant %d (%s): root{tree: ref node} mapped to a struct with a map field, node refers back to itself", variant, defaults), what}
+				detail := []string{fmt.Sprintf("variant %d (%s): 0-2 root{tree: ref node} mapped to a struct with a map field, node refers back to itself; 3-4 a struct type containing itself through a pointer / interface field", variant, defaults), what}
 				s.finding(Finding{Prop: "C04", What: "Unserialize of a struct-mapped object whose unset property refers to a self-referential map-backed object does not return", Detail: detail})
 				s.finding(Finding{Prop: "C14", What: "a self-referential object graph below a struct-mapped object does not work on a finite input", Detail: detail})
 			}
